@@ -433,6 +433,19 @@ where
             })
     }
 
+    /// Read and discard the few bytes of a value
+    /// which remain after its last whole number,
+    /// so that the declared value length is always consumed in full.
+    /// The position is left for the caller to update.
+    fn discard_value_remainder(&mut self, n: usize) -> Result<()> {
+        let mut remainder = [0u8; 8];
+        self.from
+            .read_exact(&mut remainder[..n])
+            .context(ReadValueDataSnafu {
+                position: self.position,
+            })
+    }
+
     fn read_value_tag(&mut self, header: &DataElementHeader) -> Result<PrimitiveValue> {
         let len = self.require_known_length(header)?;
 
@@ -447,6 +460,9 @@ where
                     })
             })
             .collect();
+        if parts.is_ok() {
+            self.discard_value_remainder(len & 3)?;
+        }
         self.position += len as u64;
         Ok(PrimitiveValue::Tags(parts?))
     }
@@ -538,6 +554,7 @@ where
             .context(ReadValueDataSnafu {
                 position: self.position,
             })?;
+        self.discard_value_remainder(len & 1)?;
 
         self.position += len as u64;
         Ok(PrimitiveValue::I16(vec))
@@ -553,6 +570,7 @@ where
             .context(ReadValueDataSnafu {
                 position: self.position,
             })?;
+        self.discard_value_remainder(len & 3)?;
         self.position += len as u64;
         Ok(PrimitiveValue::F32(vec))
     }
@@ -746,6 +764,7 @@ where
             .context(ReadValueDataSnafu {
                 position: self.position,
             })?;
+        self.discard_value_remainder(len & 7)?;
         self.position += len as u64;
         Ok(PrimitiveValue::F64(vec))
     }
@@ -761,6 +780,7 @@ where
             .context(ReadValueDataSnafu {
                 position: self.position,
             })?;
+        self.discard_value_remainder(len & 3)?;
         self.position += len as u64;
         Ok(PrimitiveValue::U32(vec))
     }
@@ -789,6 +809,7 @@ where
             .context(ReadValueDataSnafu {
                 position: self.position,
             })?;
+        self.discard_value_remainder(len & 1)?;
 
         self.position += len as u64;
 
@@ -811,6 +832,7 @@ where
             .context(ReadValueDataSnafu {
                 position: self.position,
             })?;
+        self.discard_value_remainder(len & 7)?;
         self.position += len as u64;
         Ok(PrimitiveValue::U64(vec))
     }
@@ -826,6 +848,7 @@ where
             .context(ReadValueDataSnafu {
                 position: self.position,
             })?;
+        self.discard_value_remainder(len & 3)?;
         self.position += len as u64;
         Ok(PrimitiveValue::I32(vec))
     }
@@ -841,6 +864,7 @@ where
             .context(ReadValueDataSnafu {
                 position: self.position,
             })?;
+        self.discard_value_remainder(len & 7)?;
         self.position += len as u64;
         Ok(PrimitiveValue::I64(vec))
     }
@@ -1088,7 +1112,9 @@ where
     }
 
     fn read_u32_to_vec(&mut self, length: u32, vec: &mut Vec<u32>) -> Result<()> {
-        self.read_u32((length >> 2) as usize, vec)
+        self.read_u32((length >> 2) as usize, vec)?;
+        // consume the bytes past the last whole number as well
+        self.skip_bytes(length & 3)
     }
 
     fn read_to<W>(&mut self, length: u32, mut out: W) -> Result<()>
